@@ -43,6 +43,9 @@ func Observe(c *cdi.Cache) Observation {
 		if d.GetQualifiedName() != q {
 			o.Markers[q] += " (qualified name " + d.GetQualifiedName() + ")"
 		}
+		if sp := d.GetSpec(); sp.GetVendor()+"/"+sp.GetClass()+"="+d.Name != q {
+			o.Markers[q] += " (Spec vendor/class " + sp.GetVendor() + "/" + sp.GetClass() + ", device " + d.Name + ")"
+		}
 	}
 	vs, cs := c.ListVendors(), c.ListClasses()
 	o.Vendors = append([]string{}, vs...)
